@@ -562,7 +562,9 @@ class ModuleVistor(NodeVisitor):
                     # of correctness, but we're not doing anything special with it at the
                     # moment, nonethless this could be useful for future developments.
                     # We don't bother reporting warnings, pydoctor is not a checker.
-                    obj.value = ast.BinOp(left=obj.value, op=augassign, right=new_value)
+                    # The new node stands where the augmented assignment is written.
+                    obj.value = ast.copy_location(
+                        ast.BinOp(left=obj.value, op=augassign, right=new_value), new_value)
             else:
                 obj.value = new_value
     
